@@ -9,6 +9,7 @@ algorithm, and is labelled with that algorithm; batch and single lookups agree.
 usage: state_hashes.py [N]   (seed from VERIF_SEED) -> JSON report, last line of stdout
 """
 import logging; logging.disable(logging.CRITICAL)  # noqa: E702
+import _memfs  # noqa: E402
 import hashlib, json, os, random, sys, tempfile, time  # noqa: E401
 
 SRC = os.environ.get("PYVC_REPO_SRC", "/repo/src")
@@ -178,6 +179,7 @@ def main():
     rng = random.Random(int(os.environ.get("VERIF_SEED", "1")))
     failures, evals = [], 0
     for i in range(n):
+        _memfs.reset()
         big = i % 10 == 9  # every tenth history crosses the 999-parameter SQL boundary
         nfiles = 1100 if big else rng.randint(1, 6)
         try:
